@@ -47,7 +47,7 @@ def simplify_env(spec):
         if op.get("env"):
             yield dict(spec, ops=ops[:i] + [{k: v for k, v in op.items() if k != "env"}] + ops[i + 1:])
     for i, op in enumerate(ops):
-        for key in ("interrupt", "fs_faults", "kill", "plant"):
+        for key in ("interrupt", "fs_faults", "kill", "plant", "scribble"):
             if op.get(key):
                 yield dict(spec, ops=ops[:i] + [{k: v for k, v in op.items() if k != key}] + ops[i + 1:])
 
